@@ -25,6 +25,8 @@ from ...app_support.security_v2 import parse_certificate
 
 
 def verify_ecdsa(pub_key: ECC.EccKey, sig_ptrs: SignaturePtrs) -> bool:
+    if sig_ptrs.signature_value_buf is None:
+        return False
     verifier = DSS.new(pub_key, 'fips-186-3', 'der')
     h = SHA256.new()
     for content in sig_ptrs.signature_covered_part:
@@ -37,6 +39,8 @@ def verify_ecdsa(pub_key: ECC.EccKey, sig_ptrs: SignaturePtrs) -> bool:
 
 
 def verify_rsa(pub_key: RSA.RsaKey, sig_ptrs: SignaturePtrs) -> bool:
+    if sig_ptrs.signature_value_buf is None:
+        return False
     verifier = pkcs1_15.new(pub_key)
     h = SHA256.new()
     for content in sig_ptrs.signature_covered_part:
@@ -115,6 +119,8 @@ class HmacChecker(KnownChecker):
 
 
 def verify_ed25519(pub_key: ECC.EccKey, sig_ptrs: SignaturePtrs) -> bool:
+    if sig_ptrs.signature_value_buf is None:
+        return False
     verifier = eddsa.new(pub_key, 'rfc8032')
     try:
         verifier.verify(b''.join(sig_ptrs.signature_covered_part), bytes(sig_ptrs.signature_value_buf))
